@@ -315,6 +315,22 @@ func (dm *DMap) putOnCluster(e *env) error {
 		}
 	}
 
+	if e.putConfig.OnlyUpdateTTL {
+		// Only the expiry changes. The replicas receive the whole entry, so
+		// it has to carry the current value. An expired key is a missing key.
+		current, err := f.storage.Get(e.hkey)
+		if errors.Is(err, storage.ErrKeyNotFound) {
+			return ErrKeyNotFound
+		}
+		if err != nil {
+			return err
+		}
+		if isKeyExpired(current.TTL()) {
+			return ErrKeyNotFound
+		}
+		e.value = current.Value()
+	}
+
 	nt := dm.prepareEntry(e)
 	if dm.s.config.ReplicaCount > config.MinimumReplicaCount {
 		switch dm.s.config.ReplicationMode {
@@ -335,6 +351,10 @@ func (dm *DMap) putOnCluster(e *env) error {
 }
 
 func (dm *DMap) writePutCommand(e *env) (*redis.StatusCmd, error) {
+	if e.putConfig.OnlyUpdateTTL {
+		return protocol.NewPExpire(e.dmap, e.key, e.timeout).Command(dm.s.ctx), nil
+	}
+
 	cmd := protocol.NewPut(e.dmap, e.key, e.value)
 	switch {
 	case e.putConfig.HasEX:
